@@ -35,6 +35,7 @@ class C10(Check):
     QUICK_S = 75
     THOROUGH_S = 1200
     CHUNK = 20
+    CANARY_N = 4
     RULE = ('one evaluation = one simulated run on one shared Lark instance: either 2-4 caller threads x 1-4 operations under a seeded '
             'line-granular schedule (random / PCT / first-use-burst), or a single-thread history of 2-12 operations with injected '
             'interrupts, failing callbacks and abandoned generators; every completed operation is compared with the same operation on a '
